@@ -1,14 +1,17 @@
 /-
 C07 — source tie (see Props/C03Src.lean for what that is): the vault's redemption rate and interest-rate band,
-x/stablestake/keeper/{params,interest_rate}.go.  Property theorems only.
+x/stablestake/keeper/{params,interest_rate}.go, and the guards in front of `Borrow`'s effects (debt.go; the longest prefix of the function the
+translator understands).  Property theorems only.
 -/
 import ElysModel.Lemmas.GenTie
 import ElysModel.Gen.Arith.getRedemptionRate
 import ElysModel.Gen.Arith.interestRateComputation
+import ElysModel.Gen.Arith.borrowGuards
+import ElysModel.Lemmas.Stable
 import ElysModel.Gen.Arith.Table
 import ElysModel.Stable.Model
 namespace Elys.Stable.C07Src
-open Elys Elys.Amm
+open Elys Elys.Amm Elys.Stable
 
 /-- whenever `GetRedemptionRate` as the source has it now returns, it returns the model's `rate` (the source also asserts
 the 2^256 range of the quotient, which the model leaves out). -/
@@ -55,5 +58,44 @@ theorem gen_free_interestRate : Gen.Arith.freeOf "interestRateComputation" =
     ["#0.GetParams(#1).TotalValue", "#0.GetParams(#1).InterestRate", "#0.GetParams(#1).InterestRateMax", "#0.GetParams(#1).InterestRateMin",
      "#0.GetParams(#1).InterestRateIncrease", "#0.GetParams(#1).InterestRateDecrease", "#0.GetParams(#1).HealthGainFactor",
      "#0.bk.GetBalance(#1, authtypes.NewModuleAddress(types.ModuleName), #0.GetDepositDenom(#1)).Amount"] := by decide
+
+/-- the guards in front of `Borrow`'s effects, as the source has them now, let a borrow through only under the 90 % cap — whatever
+the vault's parameters are (they read `TotalValue` and the vault's balance, nothing else). -/
+theorem gen_borrow_cap (s : St) (amt : Int) (h : Gen.Arith.borrowGuards false s.tv s.cash amt = .ok ()) :
+    10 * (s.tv - s.cash + amt) ≤ 9 * s.tv := by
+  unfold Gen.Arith.borrowGuards at h
+  simp only [Bool.false_eq_true, if_false] at h
+  obtain ⟨t1, h1, h⟩ := bind_ok h
+  obtain ⟨t2, h2, h⟩ := bind_ok h
+  obtain ⟨t3, h3, h⟩ := bind_ok h
+  have e1 := chk_ok h1
+  unfold mulC at h2
+  have e2 := chk_ok h2
+  unfold quoC at h3
+  have hne : (10 * P) ≠ 0 := by decide
+  simp only [hne, if_false] at h3
+  have e3 := chk_ok h3
+  subst e1 e2 e3
+  have hc : ¬ (borrowedAfter s amt > maxAllowed s) := by
+    unfold borrowedAfter maxAllowed Dec.ofInt
+    intro hgt
+    simp only [hgt, if_true] at h
+    cases h
+  rw [cap_iff] at hc
+  omega
+
+/-- … and refuse it with `ErrMaxBorrowAmount` above the cap (when the 2^256 range assertions hold). -/
+theorem gen_borrow_refused (s : St) (amt : Int) (r : Except Amm.Err Unit) (hr : Gen.Arith.borrowGuards false s.tv s.cash amt = r)
+    (h : 10 * (s.tv - s.cash + amt) > 9 * s.tv) : r ≠ .ok () := by
+  intro hok
+  rw [hok] at hr
+  have := gen_borrow_cap s amt hr
+  omega
+
+/-- what `Borrow`'s guards read: whether the coin is in the deposit denom, the stated total value, the vault's own balance, the amount —
+no other parameter of the vault. -/
+theorem gen_free_borrowGuards : Gen.Arith.freeOf "borrowGuards" =
+    ["#0.GetDepositDenom(#1) != #3.Denom", "#0.GetParams(#1).TotalValue",
+     "#0.bk.GetBalance(#1, authtypes.NewModuleAddress(types.ModuleName), #0.GetDepositDenom(#1)).Amount", "#3.Amount"] := by decide
 
 end Elys.Stable.C07Src
